@@ -5,6 +5,7 @@ package sqlx
 import (
 	"database/sql"
 	"encoding/json"
+	"errors"
 	"fmt"
 	"regexp"
 	"strconv"
@@ -34,8 +35,9 @@ type verifC16Op struct {
 }
 
 type verifC16Case struct {
-	Suffix bool         `json:"suffix"`
-	Ops    []verifC16Op `json:"ops"`
+	FailEvery int          `json:"fail_every"` // every k-th Exec returns an error (0: none)
+	Suffix    bool         `json:"suffix"`
+	Ops       []verifC16Op `json:"ops"`
 }
 
 type verifC16Add struct {
@@ -73,13 +75,14 @@ var verifC16Row = regexp.MustCompile(`\((\d+), 'r'\)`)
 // verifC16Conn records every Exec; only Exec is ever called by dbInserter.
 type verifC16Conn struct {
 	Conn
-	p       *verifexec.Probe
-	mu      sync.Mutex
-	suffix  bool
-	batches []verifC16Batch
-	bad     string
-	gate    chan struct{} // non-nil: Exec parks at entry
-	parked  int
+	p                        *verifexec.Probe
+	mu                       sync.Mutex
+	suffix                   bool
+	batches                  []verifC16Batch
+	bad                      string
+	gate                     chan struct{} // non-nil: Exec parks at entry
+	parked                   int
+	failEvery, execs, failed int
 }
 
 func (c *verifC16Conn) Exec(query string, args ...any) (sql.Result, error) {
@@ -110,7 +113,15 @@ func (c *verifC16Conn) Exec(query string, args ...any) (sql.Result, error) {
 		c.bad = "statement is not prefix + rows + suffix"
 	}
 	c.batches = append(c.batches, verifC16Batch{IDs: ids, Start: start, End: c.p.Next()})
+	c.execs++
+	fail := c.failEvery > 0 && c.execs%c.failEvery == 0
+	if fail {
+		c.failed++
+	}
 	c.mu.Unlock()
+	if fail {
+		return nil, errors.New("verif: exec failed")
+	}
 	return nil, nil
 }
 
@@ -121,7 +132,7 @@ func TestVerifDriverC16(t *testing.T) {
 			return map[string]any{"error": err.Error()}
 		}
 		timex.VerifSetNow(time.Hour)
-		conn := &verifC16Conn{suffix: c.Suffix}
+		conn := &verifC16Conn{suffix: c.Suffix, failEvery: c.FailEvery}
 		stmt := verifC16Prefix + " (?, ?)"
 		if c.Suffix {
 			stmt += " " + verifC16Suffix
@@ -132,10 +143,13 @@ func TestVerifDriverC16(t *testing.T) {
 		}
 		p := verifexec.Attach(bi.executor)
 		conn.p = p
-		handled := 0
-		bi.SetResultHandler(func(sql.Result, error) {
+		handled, handledErr := 0, 0
+		bi.SetResultHandler(func(_ sql.Result, err error) {
 			conn.mu.Lock()
 			handled++
+			if err != nil {
+				handledErr++
+			}
 			conn.mu.Unlock()
 		})
 
@@ -258,6 +272,9 @@ func TestVerifDriverC16(t *testing.T) {
 		}
 		if hung == "" && handled != len(conn.batches) {
 			hung = "result handler calls differ from executed statements"
+		}
+		if hung == "" && handledErr != conn.failed {
+			hung = "the errors seen by the result handler differ from the failed statements"
 		}
 		_, _, _, queued := p.State()
 		mu.Lock()
